@@ -4,7 +4,11 @@
 package c19
 
 import (
+	"context"
+
 	"fmt"
+	admplugins "github.com/NVIDIA/KAI-scheduler/pkg/admission/plugins"
+	"github.com/NVIDIA/KAI-scheduler/pkg/admission/webhook/v1alpha2/podhooks"
 	"math"
 	"reflect"
 	"strconv"
@@ -368,6 +372,26 @@ func Eval(p podSpec) (string, obs) {
 	plugin := admgpu.New(nil, p.Enabled)
 	verr := plugin.Validate(pod.DeepCopy())
 
+	// the webhook's own entry points (podhooks.PodValidator over the plugin registry): creation, and an UPDATE of an
+	// already admitted pod that leaves the spec alone and only brings these annotations (the scheduler re-reads the
+	// annotations at every snapshot, so an update must be validated like a creation)
+	reg := admplugins.New()
+	reg.RegisterPlugin(plugin)
+	pv := podhooks.NewPodValidator(nil, reg, "kai-scheduler")
+	wp := pod.DeepCopy()
+	wp.Spec.SchedulerName = "kai-scheduler"
+	_, cerr := pv.ValidateCreate(context.Background(), wp.DeepCopy())
+	oldValid := wp.DeepCopy()
+	oldValid.Annotations = map[string]string{}
+	if p.Enabled {
+		oldValid.Annotations["gpu-fraction"] = "0.5"
+	}
+	oldNone := wp.DeepCopy()
+	oldNone.Annotations = map[string]string{}
+	_, u1err := pv.ValidateUpdate(context.Background(), oldValid, wp.DeepCopy())
+	_, u2err := pv.ValidateUpdate(context.Background(), oldNone, wp.DeepCopy())
+	hooks := u.List([]string{u.Bool(cerr == nil), u.Bool(u1err == nil), u.Bool(u2err == nil)})
+
 	ti := pod_info.NewTaskInfo(pod.DeepCopy(), nil, resource_info.NewResourceVectorMap())
 	g := ti.ResReq.GpuResourceRequirement
 	rt := "Regular"
@@ -396,9 +420,9 @@ func Eval(p podSpec) (string, obs) {
 		Portion: strconv.FormatFloat(g.GpuFractionalPortion(), 'g', -1, 64), Memory: g.GpuMemory(),
 		Idem: idem, PfBits: math.Float64bits(f), PfErr: ferr != nil}
 
-	term := fmt.Sprintf("{| k_enabled := %s; k_pod := %s; k_pf := {| pf_bits := %s; pf_err := %s |}; k_valid := %s; k_req := {| g_type := %s; g_count := %s; g_portion := %s; g_memory := %s |}; k_mut := %s; k_idem := %s |}",
+	term := fmt.Sprintf("{| k_enabled := %s; k_pod := %s; k_pf := {| pf_bits := %s; pf_err := %s |}; k_valid := %s; k_req := {| g_type := %s; g_count := %s; g_portion := %s; g_memory := %s |}; k_mut := %s; k_idem := %s; k_hooks := %s |}",
 		u.Bool(p.Enabled), before, u.N(o.PfBits), u.Bool(o.PfErr), u.Bool(o.Valid),
-		rt, u.Z(o.Count), u.N(math.Float64bits(g.GpuFractionalPortion())), u.Z(o.Memory), podTerm(m1), u.Bool(idem))
+		rt, u.Z(o.Count), u.N(math.Float64bits(g.GpuFractionalPortion())), u.Z(o.Memory), podTerm(m1), u.Bool(idem), hooks)
 	return term, o
 }
 
